@@ -49,6 +49,7 @@ GENERIC = {}
 
 
 def srange(*a):
+    a = tuple(arr.scalar_of(x.elem(())) if isinstance(x, SArray) and x.ndim == 0 else x for x in a)
     if any(isinstance(x, SInt) for x in a):
         if len(a) == 1:
             return SRange(a[0])
